@@ -50,6 +50,13 @@ func rewriteSignatures(clusterID string, expectHash string,
 	mw := io.MultiWriter(hasher, updatedManifest)
 	sz := 0
 
+	// The line scanner below drops a "\r" before "\n" and supplies
+	// a missing final newline, so it would certify (and hand on)
+	// a text that differs from the one received.
+	if strings.Contains(col.ManifestText, "\r\n") || (col.ManifestText != "" && !strings.HasSuffix(col.ManifestText, "\n")) {
+		return nil, fmt.Errorf("Invalid manifest: line does not end with a bare newline")
+	}
+
 	scanner := bufio.NewScanner(strings.NewReader(col.ManifestText))
 	scanner.Buffer(make([]byte, 1048576), len(col.ManifestText))
 	for scanner.Scan() {
